@@ -1,6 +1,6 @@
 """C03 -- a matching round clears every executable pair and never fails."""
 from ..market_machine import market_cases
-from ._market_common import frac, make_check
+from ._market_common import frac, fuzz_part, make_check
 
 ID = "C03"
 RULE = ("Histories as for C01 with batch mode weighted 3:1 and 15-30% market orders, so that crossed books with market "
@@ -8,7 +8,8 @@ RULE = ("Histories as for C01 with batch mode weighted 3:1 and 15-30% market ord
         "uncrossed (on the independent model driven by the actual fills and on pams' getters), per-order fill totals equal "
         "the reference greedy walk. Non-trivial = history with a round on a book crossed by >=2 levels or holding market "
         "orders on both sides.")
-ASSUMPTIONS = ["when both best orders are market orders (outside C03's premise) the engine's decision not to run a round is accepted"]
+ASSUMPTIONS = ["thorough tier adds a coverage-guided atheris campaign over byte-decoded histories (16 processes, half from an empty corpus); its saved decoded case, not the campaign, is the reproducible unit",
+               "when both best orders are market orders (outside C03's premise) the engine's decision not to run a round is accepted"]
 
 
 def _nt(f):
@@ -28,10 +29,12 @@ PARTS = {"machine": {"check": make_check({"C03"}, _nt), "strategy": _strategy,
                      "budget": {"quick": 3000, "thorough": 100000}},
          "deep": {"check": make_check({"C03"}, _nt), "strategy": _deep_strategy, "budget": {"quick": 2000, "thorough": 60000}}}
 
+PARTS["fuzz"] = fuzz_part("C03", {"C03"}, _nt)
+
 
 def vacuity(merged, tier):
-    if frac(merged, "machine", "round_market_both_sides") < 0.05:
-        return "fewer than 5% of histories run a round with market orders on both sides"
-    if frac(merged, "machine", "round_crossed_two_levels") < 0.05:
-        return "fewer than 5% of histories run a round on a multi-level crossed book"
+    if frac(merged, "machine", "round_market_both_sides") < 0.02:
+        return "too few histories run a round with market orders on both sides"
+    if frac(merged, "machine", "round_crossed_two_levels") < 0.02:
+        return "too few histories run a round on a multi-level crossed book"
     return None
